@@ -275,8 +275,11 @@ def gen_doc(rng):
     n_decl = rng.choice([0, 1, 1, 1, 2, 2, 3])
     for di in range(n_decl):
         zone = rng.random()
-        if zone < 0.55:
+        if zone < 0.4:
             pass
+        elif zone < 0.55:
+            # anywhere inside the prescan window
+            _pad_to(rng, parts, case, rng.randint(60, 940))
         elif zone < 0.7:
             _pad_to(rng, parts, case, rng.randint(940, 1023))
         elif zone < 0.9:
